@@ -12,7 +12,7 @@
 //!    vs what the real parser makes of a one-word program / of the word at the start of a text;
 //!  * correspondence: the character-level model of the `expression` rule for the fragment
 //!    operators + calls (spread arguments, trailing comma) + index + field + list literals +
-//!    lambdas + conditionals (`ExprPeg.exprItems`) vs the real pest pairs, on printer output of random trees, on the
+//!    lambdas + conditionals + string literals + record literals (`ExprPeg.exprItems`) vs the real pest pairs, on printer output of random trees, on the
 //!    same with random admissible layout and redundant parentheses, on every layout string at
 //!    every position of the postfix forms, and on ill-formed texts (`c10.model.expr-peg`).
 
@@ -59,6 +59,39 @@ enum T {
     Lam(Vec<(u8, &'static str)>, Box<T>),
     /// conditional
     Cond(Box<T>, Box<T>, Box<T>),
+    /// string literal with its content (never both kinds of quote: no literal denotes that)
+    Str(&'static str),
+    /// record literal
+    Rec(Vec<RE>),
+}
+
+/// one record entry
+#[derive(Clone)]
+enum RE {
+    /// static key (written bare when `bare`, else as a string literal) and value
+    Pair(bool, &'static str, T),
+    /// computed key and value
+    Dyn(T, T),
+    Short(&'static str),
+    Spread(T),
+}
+
+fn rec_text(es: &[RE], f: &dyn Fn(&T) -> String) -> String {
+    let parts: Vec<String> = es
+        .iter()
+        .map(|e| match e {
+            RE::Pair(bare, k, v) => format!("{}: {}", if *bare { k.to_string() } else { str_lit(k) }, f(v)),
+            RE::Dyn(k, v) => format!("[{}]: {}", f(k), f(v)),
+            RE::Short(n) => n.to_string(),
+            RE::Spread(e) => format!("...{}", f(e)),
+        })
+        .collect();
+    format!("{{{}}}", parts.join(", "))
+}
+
+/// the literal `string_to_source` writes: double quotes unless the string contains one
+fn str_lit(s: &str) -> String {
+    if s.contains('"') { format!("'{}'", s) } else { format!("\"{}\"", s) }
 }
 
 fn lam_arg(a: &(u8, &'static str)) -> String {
@@ -108,13 +141,15 @@ fn full(t: &T) -> String {
         T::ListN(items) => format!("[{}]", args_text(items, &full)),
         T::Lam(args, b) => format!("({}) => ({})", args.iter().map(lam_arg).collect::<Vec<_>>().join(", "), full(b)),
         T::Cond(c, t, e) => format!("if ({}) then ({}) else ({})", full(c), full(t), full(e)),
+        T::Str(s) => str_lit(s),
+        T::Rec(es) => rec_text(es, &full),
     }
 }
 
 /// strength classes of the documented table: binary 1..6, prefix 7, postfix `!` 8, call/index/field 9, leaf 10
 fn strength(t: &T) -> u8 {
     match t {
-        T::Leaf(_) | T::ListN(_) => 10,
+        T::Leaf(_) | T::ListN(_) | T::Str(_) | T::Rec(_) => 10,
         // a lambda as an operand of a prefix / postfix operator is always parenthesised here
         T::Lam(..) | T::Cond(..) => 0,
         T::Bin(op, _, _) => doc_level(op).0,
@@ -160,6 +195,8 @@ fn minimal(t: &T) -> String {
         T::Lam(args, b) => format!("({}) => {}", args.iter().map(lam_arg).collect::<Vec<_>>().join(", "), wrap(b, body_needs_parens(b))),
         // every part of a conditional is an `expression`: no parentheses needed
         T::Cond(c, t, e) => format!("if {} then {} else {}", minimal(c), minimal(t), minimal(e)),
+        T::Str(s) => str_lit(s),
+        T::Rec(es) => rec_text(es, &minimal),
     }
 }
 
@@ -607,8 +644,8 @@ fn check_word_model(ctx: &Ctx, model: &mut Model, rep: &mut Report, rng: &mut Rn
 enum RealItems {
     /// no parse, or not exactly one statement that is one `expression` pair spanning the text
     None,
-    /// parsed, but with a rule outside the fragment (string, list, lambda, …, a number that is
-    /// not a plain digit run): the model does not claim anything
+    /// parsed, but with a rule outside the fragment (record, do-block, assignment, …, a number
+    /// that is not a plain digit run): the model does not claim anything
     Outside(&'static str),
     /// the item sequence in wire form
     Items(String),
@@ -629,7 +666,7 @@ fn in_fragment(p: pest::iterators::Pair<Rule>) -> Result<(), &'static str> {
             }
             Ok(())
         }
-        Rule::identifier | Rule::bool | Rule::null => Ok(()),
+        Rule::identifier | Rule::bool | Rule::null | Rule::string => Ok(()),
         Rule::number => {
             if p.as_str().bytes().all(|b| b.is_ascii_digit()) {
                 Ok(())
@@ -644,7 +681,8 @@ fn in_fragment(p: pest::iterators::Pair<Rule>) -> Result<(), &'static str> {
         // conversion used here, without `preserve_comments`, drops the comments — so does the model)
         Rule::comment | Rule::eol_comment => Ok(()),
         Rule::conditional | Rule::lambda | Rule::lambda_expression | Rule::argument_list | Rule::required_arg | Rule::optional_arg | Rule::rest_arg
-        | Rule::call_list | Rule::access | Rule::dot_access | Rule::spread_expression | Rule::list | Rule::list_item => {
+        | Rule::call_list | Rule::access | Rule::dot_access | Rule::spread_expression | Rule::list | Rule::list_item
+        | Rule::record | Rule::record_item | Rule::record_pair | Rule::record_key_static | Rule::record_key_dynamic | Rule::record_shorthand => {
             for c in p.into_inner() {
                 in_fragment(c)?;
             }
@@ -700,8 +738,18 @@ const LAY_WS0: &[&str] = &["", "", "", " ", "  ", "\t"];
 /// PLAIN line breaks, comments that are followed by a line break
 const LAY_LIST: &[&str] = &["", "", " ", " ", "  ", "\t", "\n", "\r\n", "\n  ", " \n\t", "\n\n", " // c\n", "\n// c /\r\n ", "// c\n// d\n"];
 
+/// contents of string literals: blanks, the other quote, `//`, line breaks, brackets, keywords,
+/// operators, `=>`, non-ASCII — anything but the literal's own quote (no escapes)
+const PEG_STRS: &[&str] = &[
+    "", "s", "a b", "it's", "say \"hi\"", "a // c", "x\ny", "x\r\n", "(", ")", "]", ",", " => ", "if", "then", "1 + 2", "é", "\\",
+    "\\n", "'", "\"", "''", " ", "\t", "a\"b\"c", "...", "!", "not ", "/* */",
+];
+
 fn gen_ft(rng: &mut Rng, depth: usize) -> T {
     if depth == 0 || rng.chance(1, 4) {
+        if rng.chance(1, 5) {
+            return T::Str(PEG_STRS[rng.below(PEG_STRS.len())]);
+        }
         return T::Leaf(PEG_ATOMS[rng.below(PEG_ATOMS.len())]);
     }
     match rng.below(16) {
@@ -726,6 +774,20 @@ fn gen_ft(rng: &mut Rng, depth: usize) -> T {
             T::Lam(args, Box::new(gen_ft(rng, depth - 1)))
         }
         11 => T::Cond(Box::new(gen_ft(rng, depth - 1)), Box::new(gen_ft(rng, depth - 1)), Box::new(gen_ft(rng, depth - 1))),
+        12 => {
+            let n = [0, 1, 1, 2, 2, 3][rng.below(6)];
+            T::Rec(
+                (0..n)
+                    .map(|_| match rng.below(8) {
+                        0 | 1 | 2 => RE::Pair(true, PEG_FIELDS[rng.below(PEG_FIELDS.len())], gen_ft(rng, depth - 1)),
+                        3 | 4 => RE::Pair(false, PEG_STRS[rng.below(PEG_STRS.len())], gen_ft(rng, depth - 1)),
+                        5 => RE::Dyn(gen_ft(rng, depth - 1), gen_ft(rng, depth - 1)),
+                        6 => RE::Short(PEG_FIELDS[rng.below(PEG_FIELDS.len())]),
+                        _ => RE::Spread(gen_ft(rng, depth - 1)),
+                    })
+                    .collect(),
+            )
+        }
         6 => T::DotN(Box::new(gen_ft(rng, depth - 1)), PEG_FIELDS[rng.below(PEG_FIELDS.len())]),
         _ => T::Bin(BINOPS[rng.below(BINOPS.len())], Box::new(gen_ft(rng, depth - 1)), Box::new(gen_ft(rng, depth - 1))),
     }
@@ -733,7 +795,7 @@ fn gen_ft(rng: &mut Rng, depth: usize) -> T {
 
 /// `minimal` with a random ADMISSIBLE layout string at every position where the grammar admits
 /// one (around binary operators, inside parentheses, inside a call's parentheses, inside an
-/// index's brackets) and, with probability `extra`/8, an extra pair of parentheses around a
+/// index's brackets), for a string literal either quote character that does not occur in it, and, with probability `extra`/8, an extra pair of parentheses around a
 /// sub-expression.  Admissible: anything (also nothing) around a symbol operator, but something
 /// in front of an operator starting with `!`; at least one layout atom in front of a word
 /// operator and blanks (no line break) behind it; in a call anything behind `(`, behind a comma
@@ -751,6 +813,12 @@ fn laid(t: &T, rng: &mut Rng, extra: u64) -> String {
     }
     let s = match t {
         T::Leaf(s) => s.to_string(),
+        // either quote character that does not occur in the string
+        T::Str(s) => {
+            let dq_ok = !s.contains('"');
+            let sq_ok = !s.contains('\'');
+            if dq_ok && (!sq_ok || rng.chance(1, 2)) { format!("\"{}\"", s) } else { format!("'{}'", s) }
+        }
         T::Bin(op, l, r) => {
             let (p, right) = doc_level(op);
             let lneed = matches!(&**l, T::Bin(lo, _, _) if { let (lp, _) = doc_level(lo); lp < p || (lp == p && right) }) || ends_open(l);
@@ -826,6 +894,62 @@ fn laid(t: &T, rng: &mut Rng, extra: u64) -> String {
             }
             out.push_str(LAY_LIST[rng.below(LAY_LIST.len())]);
             out.push(']');
+            out
+        }
+        // the layout of a list; in a pair blanks in front of the colon and any layout behind it;
+        // blanks only inside the brackets of a computed key; a bare key may be written as a
+        // string literal, a string key in either quote character that does not occur in it
+        T::Rec(es) => {
+            let mut out = String::from("{");
+            out.push_str(LAY_LIST[rng.below(LAY_LIST.len())]);
+            for (k, e) in es.iter().enumerate() {
+                if k > 0 {
+                    out.push_str(LAY_WS0[rng.below(LAY_WS0.len())]);
+                    out.push(',');
+                    out.push_str(LAY_LIST[rng.below(LAY_LIST.len())]);
+                }
+                match e {
+                    RE::Pair(bare, key, v) => {
+                        if *bare && rng.chance(3, 4) {
+                            out.push_str(key);
+                        } else {
+                            let dq_ok = !key.contains('"');
+                            let sq_ok = !key.contains('\'');
+                            if dq_ok && (!sq_ok || rng.chance(1, 2)) {
+                                out.push_str(&format!("\"{}\"", key));
+                            } else {
+                                out.push_str(&format!("'{}'", key));
+                            }
+                        }
+                        out.push_str(LAY_WS0[rng.below(LAY_WS0.len())]);
+                        out.push(':');
+                        out.push_str(LAY_ANY[rng.below(LAY_ANY.len())]);
+                        out.push_str(&laid(v, rng, extra));
+                    }
+                    RE::Dyn(key, v) => {
+                        out.push('[');
+                        out.push_str(LAY_WS0[rng.below(LAY_WS0.len())]);
+                        out.push_str(&laid(key, rng, extra));
+                        out.push_str(LAY_WS0[rng.below(LAY_WS0.len())]);
+                        out.push(']');
+                        out.push_str(LAY_WS0[rng.below(LAY_WS0.len())]);
+                        out.push(':');
+                        out.push_str(LAY_ANY[rng.below(LAY_ANY.len())]);
+                        out.push_str(&laid(v, rng, extra));
+                    }
+                    RE::Short(n) => out.push_str(n),
+                    RE::Spread(x) => {
+                        out.push_str("...");
+                        out.push_str(&laid(x, rng, extra));
+                    }
+                }
+            }
+            if !es.is_empty() && rng.chance(1, 3) {
+                out.push_str(LAY_WS0[rng.below(LAY_WS0.len())]);
+                out.push(',');
+            }
+            out.push_str(LAY_LIST[rng.below(LAY_LIST.len())]);
+            out.push('}');
             out
         }
         T::Cond(c, t, e) => format!(
@@ -980,6 +1104,32 @@ fn check_expr_peg(ctx: &Ctx, model: &mut Model, rep: &mut Report, rng: &mut Rng)
         "x => if a then b else c via f", "x => (if a then b else c) via f", "if a then b else c and d", "iffy", "if_", "if", "if ", "if a",
         "ifthen", "if then then then else else", "then", "else", "a then b", "a else b", "if a then b else\n\nc", "if a then b\n\nelse c",
         "if true then null else 0", "if a! then b! else c!", "if -a then -b else -c", "if a.b then c[0] else d(1)",
+        // string literals: no escapes, the literal ends at the first occurrence of its opening quote
+        "\"\"", "''", "\"a\"", "'a'", "\"a b\"", "\"it's\"", "'say \"hi\"'", "\"a", "a\"", "'a", "\"a'", "'a\"", "\"a\"b", "a\"b\"", "\"a\"\"b\"",
+        "\"a\" \"b\"", "\"a\"'b'", "\"a\\\"", "\"a\\\"b\"", "\"a\nb\"", "\"a\r\nb\"", "\"a // c\"", "\"a // c\nb\"", "\"// c\"", "'\n'", "\"\t\"",
+        "\"a\" + \"b\"", "\"a\"+'b'", "\"a\"+\"b\"", "\"a\" +\"b\"", "\"a\"and \"b\"", "\"a\" and\"b\"", "\"a\" and \"b\"", "\"a\" !=\"b\"", "\"a\"!=\"b\"",
+        "\"a\"!", "-\"a\"", "!\"a\"", "not \"a\"", "not\"a\"", "\"a\"[0]", "\"a\" [0]", "\"a\".b", "\"a\".length", "\"a\"(b)", "\"a\"()", "(\"a\")",
+        "( \"a\" )", "(\"a)\")", "(\"a\")(\"b\")", "f(\"a\")", "f(\"a\", 'b')", "f(\"a,b\")", "f(\"a\",\n)", "f(...\"a\")", "[\"a\"]", "[\"a\", 'b',]",
+        "[\"]\"]", "[\"a\" // c\n]", "a[\"k\"]", "a[\n\"k\"\n]", "a[ \"k\"]", "x => \"a\"", "x => \"a\" + x", "\"x\" => 1", "(\"x\") => 1", "x => \"=>\"",
+        "if \"a\" then \"b\" else \"c\"", "if\"a\" then b else c", "if \"a\"then b else c", "if a then\"b\" else c", "if a then \"b\"else c",
+        "if a then b else\"c\"", "\"if a then b else c\"", "\"a\" ?? \"b\"", "\"a\" via f", "\"a\"via f", "a via\"f\"", "\"é\"", "\"\u{a0}\"", "'\u{2028}'",
+        // record literals (non-atomic; `record_pair` non-atomic; keys: identifier | string | [expression])
+        "{}", "{ }", "{\n}", "{\t\r\n }", "{a}", "{ a }", "{a,b}", "{a, b}", "{a ,b}", "{a\n,b}", "{a,\nb}", "{a,}", "{a, }", "{a,\n}", "{a ,}",
+        "{a,,}", "{,}", "{ , }", "{,a}", "{a b}", "{a;b}", "{a: 1}", "{a:1}", "{a :1}", "{a : 1}", "{a\n: 1}", "{a:\n1}", "{a: \n 1}", "{a: // c\n 1}",
+        "{a // c\n: 1}", "{a: 1 // c\n}", "{a: 1 // c\n, b: 2}", "{a: 1, // c\n b: 2}", "{// c\n a: 1}", "{// c\n}", "{// c}", "{a: 1 // c}",
+        "{a: 1, b: 2}", "{a: 1,b: 2,}", "{\n  a: 1,\n  b: 2,\n}", "{\r\n\ta: 1,\r\n\tb: 2\r\n}", "{a: 1 b: 2}", "{a: 1; b: 2}", "{a: }", "{a:}", "{: 1}",
+        "{a: 1, }", "{a: 1,\n\n}", "{a: 1\n}", "{a: 1\n,}", "{\"k\": 1}", "{'k': 1}", "{\"k 2\": x}", "{\"k\" : 1}", "{\"k\"\n: 1}", "{\"k\"}", "{\"a\"b: 1}",
+        "{\"\": 1}", "{'it\"s': 1}", "{\"a: 1}", "{[a]: 1}", "{[ a ]: 1}", "{[\na]: 1}", "{[a\n]: 1}", "{[a] : 1}", "{[a]:1}", "{[a]}", "{[a + b]: c}",
+        "{[\"k\"]: 1}", "{[a][b]: 1}", "{[[a]]: 1}", "{[a, b]: 1}", "{[]: 1}", "{[a]: [b]}", "{[if a then b else c]: 1}", "{[x => x]: 1}", "{[a // c\n]: 1}",
+        "{...a}", "{... a}", "{...a, b}", "{a, ...b}", "{...a, ...b}", "{...a.b}", "{...f(a)}", "{...{a: 1}}", "{...[a]}", "{....a}", "{..a}", "{...}", "{...a: 1}",
+        "{a...}", "{if: 1}", "{true: 1}", "{null}", "{not: 1}", "{iffy: 1}", "{sqrt: 1}", "{sqrt}", "{_: 1}", "{a1: 1}", "{1: 1}", "{1}", "{a.b}", "{a.b: 1}",
+        "{a(b)}", "{a + b}", "{-a}", "{(a)}", "{(a): 1}", "{a: b: c}", "{a: {b: 1}}", "{a: {b: {c: 1}}}", "{a: {}}", "{a: [1, 2]}", "{a: x => x}", "{a: x => x, b: 1}",
+        "{a: (x) => {b: x}}", "{a: if b then c else d}", "{a: if b then c else d, e: 1}", "{a: b via c}", "{a: b and c}", "{a: not b}", "{a: -b}", "{a: b!}",
+        "{a: b}.a", "{a: b}[\"a\"]", "{a: b}!", "{a: b}(c)", "{a: b} + 1", "1 + {a: b}", "-{a: b}", "!{}", "f({a: 1})", "f({})", "f(...{a: 1})", "[{a: 1}, {}]",
+        "[{}]", "{a: [{}]}", "x => {a: x}", "x => {}", "if {} then {} else {}", "{} == {}", "{}{}", "{} {}", "{a}{b}", "a{b}", "a {b}", "{", "}", "{a", "a}", "{a)", "(a}",
+        "{a: 1", "{a: 1,", "{a: 1}}", "{{a: 1}}", "{{}}", "{a: 1, b}", "{b, a: 1}", "{a, b: 1, ...c, [d]: 2, \"e f\": 3}", "{a:: 1}", "{a = 1}", "{a => 1}",
+        "{a: 1 }", "{ a: 1 }", "{a: 1\t}", "{\"k\": \"v\"}", "{k: 'v'}", "{a: 1, \"b\": 2, [c]: 3, d, ...e}", "{a ?? b}", "{a: b ?? c}", "{a?: 1}", "{a ?: 1}",
+        "\"a\" == 'a'", "\"1\" + 1", "1 + \"1\"", "1\"a\"", "a'b'", "true\"a\"", "\"a\"true", "\"a\"1", "\"a\"_", "\"a\" // c", "\"a\" // \"c\nb",
     ];
     for t in PROBES {
         peg_compare(model, rep, t, "probe");
@@ -1031,6 +1181,23 @@ fn check_expr_peg(ctx: &Ctx, model: &mut Model, rep: &mut Report, rng: &mut Rng)
                 format!("if x then y else{}z{}", a, b),
                 format!("if x{}then{}y else z", a, b),
                 format!("if x then y{}else{}z", a, b),
+                format!("{{{}x{}}}", a, b),
+                format!("{{x{},{}y}}", a, b),
+                format!("{{x{}:{}y}}", a, b),
+                format!("{{x: 1{},{}}}", a, b),
+                format!("{{{}{}}}", a, b),
+                format!("{{[{}x{}]: y}}", a, b),
+                format!("{{\"k\"{}:{}y, z}}", a, b),
+                format!("{{...{}x{}}}", a, b),
+                format!("{{x: y{}}}{}", a, b),
+                format!("\"x\"{}+{}'y'", a, b),
+                format!("\"x\"{}and{}'y'", a, b),
+                format!("f({}\"x\"{})", a, b),
+                format!("[\"x\"{},{}'y']", a, b),
+                format!("\"x{}y\"{}", a, b),
+                format!("\"x\"{}[0]{}", a, b),
+                format!("if{}\"x\"{}then y else z", a, b),
+                format!("x{}=>{}\"y\"", a, b),
             ] {
                 peg_compare(model, rep, &t, "postfix-layout");
             }
@@ -1040,7 +1207,7 @@ fn check_expr_peg(ctx: &Ctx, model: &mut Model, rep: &mut Report, rng: &mut Rng)
     let n = ctx.budget(500, 6000);
     const ALPHABET: &[char] = &[
         ' ', ' ', '\t', '\n', 'a', 'n', 'o', 't', 'd', 'r', 'z', '0', '1', '9', '_', '(', ')', '+', '-', '*', '/', '%', '^', '.',
-        '=', '!', '<', '>', '&', '|', '?', ',', ',', '[', ']', '.', '(', ')',
+        '=', '!', '<', '>', '&', '|', '?', ',', ',', '[', ']', '.', '(', ')', '"', '\'', '{', '}', ':', ':',
     ];
     for _ in 0..n {
         let d = 1 + rng.below(4);
